@@ -14,6 +14,7 @@ func (w *World) globalOverride(e *Exec, g *ssa.Global) (Value, bool) { return ni
 
 func (w *World) registerMoreIntrinsics() {
 	I := w.intrinsics
+	w.registerHTTPIntrinsics()
 	terms := func(e *Exec, v Value) []*Term {
 		var ts []*Term
 		for _, x := range e.sliceElems(v.(*SliceVal)) {
